@@ -8,6 +8,7 @@ wrong JSON type, is answered with `{"unsupported": …}` (outside the modelled s
 import Rpft.Drv.Json
 import Rpft.Document
 import Rpft.DocumentWitness
+import Rpft.DocumentUi
 namespace Rpft.Drv.DocumentD
 open Rpft.Drv
 open Lean Rpft Rpft.Document
@@ -312,14 +313,53 @@ def encNode (n : NodeD) : Json :=
   Json.mkObj ([("uuid", strJ n.uuid), ("actions", arrJ encAction n.actions), ("exits", arrJ encExit n.exits)]
     ++ (match n.router with | none => [] | some r => [("router", encRouter r)]))
 
-def encFlow (f : FlowD) : Json :=
-  Json.mkObj ([("uuid", strJ f.uuid), ("name", strJ f.name), ("language", jsonOfBlob f.language), ("type", jsonOfBlob f.type),
+def flowFields (f : FlowD) : List (String × Json) :=
+  [("uuid", strJ f.uuid), ("name", strJ f.name), ("language", jsonOfBlob f.language), ("type", jsonOfBlob f.type),
     ("nodes", arrJ encNode f.nodes), ("spec_version", jsonOfBlob f.specVersion), ("revision", jsonOfBlob f.revision),
     ("expire_after_minutes", jsonOfBlob f.expire), ("metadata", jsonOfBlob f.metadata), ("localization", jsonOfBlob f.localization)]
+
+def encFlow (f : FlowD) : Json :=
+  Json.mkObj (flowFields f
     ++ (match f.ui with
         | none => []
         | some ps => [("_ui", Json.mkObj [("nodes", Json.mkObj (ps.map (fun (u, l, t) =>
             (String.ofList u, Json.mkObj [("position", Json.mkObj [("left", jsonOfBlob l), ("top", jsonOfBlob t)])]))))])]))
+
+/-- the operand of a switch router as a string (the model keeps it as canonical JSON text) -/
+def operandStr (n : NodeD) : Option Str :=
+  match n.router with
+  | some (.switch op ..) =>
+    match Json.parse (String.ofList op) with
+    | .ok (.str s) => some s.toList
+    | _ => none
+  | _ => some []
+
+def encUiConfig : UiConfig → List (String × Json)
+  | .absent => []
+  | .null => [("config", Json.null)]
+  | .empty => [("config", Json.mkObj [])]
+  | .cases o => [("config", Json.mkObj ([("cases", Json.mkObj [])] ++ (match o with
+      | none => []
+      | some (i, t, n) => [("operand", Json.mkObj [("id", strJ i), ("type", strJ t), ("name", strJ n)])])))]
+
+/-- a RENDERED flow: every `_ui.nodes` entry carries the `type` / `config` that `render_ui` of
+its node writes (`Rpft.Document.nodeUi`).  The positions are, in node order, those of the
+positioned nodes (`renderFlow`). -/
+def encFlowOut (f : FlowD) : Except String Json := do
+  match f.ui with
+  | none => pure (encFlow f)
+  | some ps =>
+    let ns := f.nodes.filter (fun n => ps.any (fun p => p.1 == n.uuid))
+    if ns.length ≠ ps.length then throw "ui positions do not pair with nodes"
+    let es ← (ns.zip ps).mapM (fun (n, (u, l, t)) => do
+      let op ← match operandStr n with
+        | some o => pure o
+        | none => throw "operand of a positioned switch node is not a string"
+      match nodeUi n op with
+      | none => throw "positioned node of no class"
+      | some e => pure (String.ofList u, Json.mkObj ([("position", Json.mkObj [("left", jsonOfBlob l), ("top", jsonOfBlob t)]),
+          ("type", strJ e.type)] ++ encUiConfig e.config)))
+    pure (Json.mkObj (flowFields f ++ [("_ui", Json.mkObj [("nodes", Json.mkObj es)])]))
 
 def encEvent (e : EventD) : Json :=
   Json.mkObj ([("uuid", strJ e.uuid), ("offset", jsonOfBlob e.offset), ("unit", jsonOfBlob e.unit), ("event_type", strJ e.eventType),
@@ -337,10 +377,17 @@ def encTrigger (t : TriggerD) : Json :=
     ++ optKV "match_type" t.matchType
     ++ (match t.excludeGroups with | none => [] | some gs => [("exclude_groups", arrJ encGroup gs)]))
 
-def encDoc (d : DocD) : Json :=
-  Json.mkObj [("campaigns", arrJ encCampaign d.campaigns), ("fields", jsonOfBlob d.fields), ("flows", arrJ encFlow d.flows),
+def encDocWith (flows : Json) (d : DocD) : Json :=
+  Json.mkObj [("campaigns", arrJ encCampaign d.campaigns), ("fields", jsonOfBlob d.fields), ("flows", flows),
     ("groups", arrJ encGroup d.groups), ("site", jsonOfBlob d.site), ("triggers", arrJ encTrigger d.triggers),
     ("version", jsonOfBlob d.version)]
+
+def encDoc (d : DocD) : Json := encDocWith (arrJ encFlow d.flows) d
+
+/-- a rendered document (`_ui` entries in full) -/
+def encDocOut (d : DocD) : Except String Json := do
+  let fs ← d.flows.mapM encFlowOut
+  pure (encDocWith (Json.arr fs.toArray) d)
 
 def errName : Err → String
   | .freshUuid => "freshUuid" | .unsupported => "unsupported" | .valueError => "valueError"
@@ -365,7 +412,10 @@ def handleDocument (op : String) (j : Json) : Except String Json := do
         ("lossless", Json.bool (lossless d))])
     | "doc.roundtrip" =>
       match roundtrip d with
-      | .ok o => pure (Json.mkObj [("ok", encDoc o)])
+      | .ok o =>
+        match encDocOut o with
+        | .ok j => pure (Json.mkObj [("ok", j)])
+        | .error _ => pure (Json.mkObj [("err", Json.str "unsupported")])
       | .error e => pure (Json.mkObj [("err", Json.str (errName e))])
     | _ => throw s!"unknown op {op}"
 
